@@ -200,7 +200,7 @@ func (e *Engine) harnessPrim(fn *ssa.Function, name string, args []Value) (Value
 		e.assertPC(c)
 		return nil, true
 	case "vpReMatch":
-		return e.reMatch(e.mustStr(args[0], "vpReMatch"), args[1].(StrVal)), true
+		return e.reMatchUnanchored(e.mustStr(args[0], "vpReMatch"), args[1].(StrVal)), true
 	}
 	if v, ok := e.jInspect(name, args); ok {
 		return v, true
